@@ -88,8 +88,37 @@ def convertAll (res : Resolver) : List SrcFile → Outcome (List FileSkel)
 
 def Bundle.find (b : Bundle) (name : Str) : Option Pkg := b.pkgs.find? (·.name = name)
 
+/-- packages a local package depends on: the packages of all type references of its files
+(`includeIO`), without itself (`resolveDependencies`), each once -/
+def depNamesOf (name : Str) (sums : List Summary') : List Str :=
+  (dedup (sums.flatMap (·.depPkgs))).filter (· ≠ name)
+
+/-- the `TypeResolver` a package offers to `ConvertJ5File` -/
+def mkResolver (name : Str) (sums : List Summary') (ls : List Loaded) : Resolver :=
+  { pkgName := name, exports := sums.flatMap (·.exports),
+    deps := ls.map fun l => (l.name, l.exports) }
+
+def mkLoaded (name : Str) (pkg : Pkg) (sums : List Summary') (ls : List Loaded)
+    (files : List FileSkel) : Loaded :=
+  { name := name, exports := sums.flatMap (·.exports),
+    deps := ls.map fun l => (l.name, l.exports), files := files,
+    depFiles := ls.flatMap fun l => l.files ++ l.depFiles,
+    protos := protoFilesOf pkg.files ++ ls.flatMap (·.protos) }
+
+/-- `resolveDependencies`: load each dependency in turn, stop at the first failure -/
+def seqLoad (load : Str → Outcome Loaded) : List Str → Outcome (List Loaded)
+  | [] => .ok []
+  | d :: ds =>
+    match load d with
+    | .err t => .err t
+    | .panic w => .panic w
+    | .ok l =>
+      match seqLoad load ds with
+      | .ok more => .ok (l :: more)
+      | o => o
+
 /-- `loadPackage` without the cache. `chain` is `resolveBaton.chain`; `fuel` bounds the depth
-(`Package.fuel_suffices`: `b.pkgs.length + 1` is never exhausted). -/
+(`b.pkgs.length + 1` is never exhausted: every level adds a distinct package to the chain). -/
 def loadPkg (b : Bundle) : Nat → List Str → Str → Outcome Loaded
   | 0, _, _ => .err "fuel"
   | fuel + 1, chain, name =>
@@ -103,39 +132,24 @@ def loadPkg (b : Bundle) : Nat → List Str → Str → Outcome Loaded
       | .err t => .err t
       | .panic w => .panic w
       | .ok sums =>
-        let exports := sums.flatMap (·.exports)
-        let depNames := (dedup (sums.flatMap (·.depPkgs))).filter (· ≠ name)
-        let rec loadDeps : List Str → Outcome (List Loaded)
-          | [] => .ok []
-          | d :: ds =>
-            match loadPkg b fuel (chain ++ [name]) d with
-            | .err t => .err t
-            | .panic w => .panic w
-            | .ok l =>
-              match loadDeps ds with
-              | .ok more => .ok (l :: more)
-              | o => o
-        match loadDeps depNames with
+        match seqLoad (fun d => loadPkg b fuel (chain ++ [name]) d) (depNamesOf name sums) with
         | .err t => .err t
         | .panic w => .panic w
         | .ok ls =>
-          let deps := ls.map fun l => (l.name, l.exports)
-          let res : Resolver := { pkgName := name, exports := exports, deps := deps }
-          match convertAll res pkg.files with
+          match convertAll (mkResolver name sums ls) pkg.files with
           | .err t => .err t
           | .panic w => .panic w
-          | .ok files =>
-            .ok { name := name, exports := exports, deps := deps, files := files,
-                  depFiles := ls.flatMap fun l => l.files ++ l.depFiles,
-                  protos := protoFilesOf pkg.files ++ ls.flatMap (·.protos) }
+          | .ok files => .ok (mkLoaded name pkg sums ls files)
 
-/-- file skeletons of `CompilePackage`, before linking, sorted by file name -/
+/-- insert a file into a list sorted by file name -/
+def insFile (f : FileSkel) : List FileSkel → List FileSkel
+  | [] => [f]
+  | g :: rest => if strLt f.name g.name then f :: g :: rest else g :: insFile f rest
+
+/-- file skeletons of `CompilePackage`, before linking, sorted by file name (`sort.Strings` on
+the keys of `pkg.Files`) -/
 def sortFiles (fs : List FileSkel) : List FileSkel :=
-  fs.foldl (fun acc f =>
-    let rec ins : List FileSkel → List FileSkel
-      | [] => [f]
-      | g :: rest => if strLt f.name g.name then f :: g :: rest else g :: ins rest
-    ins acc) []
+  fs.foldl (fun acc f => insFile f acc) []
 
 /-- `CompilePackage` up to (not including) the link step, on a fresh `PackageSet` -/
 def compilePkg (b : Bundle) (name : Str) : Outcome (List FileSkel) :=
